@@ -168,6 +168,7 @@ def run(ctx):
     check_string_writers(ctx, prog)
     check_read_n(ctx, prog)
     check_file_read(ctx, prog)
+    check_raw_scalars(ctx, prog)
     return __doc__.split('\n\n', 1)[1]
 
 
@@ -599,6 +600,16 @@ def check_array_writer(ctx, prog, f, other_val):
                 if len(bulk) != 1:
                     verdict = ('bad', 'non-native order branch neither writes every element through the scalar operator nor swaps every element before a bulk transfer')
             verdict = verdict or ('ok', 'non-native order: ' + kind)
+    # when the writer spells its loops out (no foreach macro) it is also interpreted as a whole on an array of 70 distinct
+    # element tokens for both byte orders: the stream must receive every element exactly once, in order, swapped iff the order
+    # is the non-native one
+    if verdict[0] != 'bad':
+        iv = interp_array_writer(prog, f, other_val)
+        ctx.evaluations += 2
+        if iv is not None and iv[0] == 'bad':
+            verdict = iv
+        elif iv is not None and iv[0] == 'ok' and verdict[0] == 'undecided':
+            verdict = iv
     if verdict[0] == 'ok':
         ctx.ok('C16.array', name, inst + ':swapped-branch', where_, verdict[1])
     elif verdict[0] == 'bad':
@@ -1023,3 +1034,99 @@ def check_file_read(ctx, prog):
         ctx.undecided('C16.fileread', f['pq'], role, fwhere(f), 'outside the interpreted fragment: %s' % und)
     else:
         ctx.check(bad is None, 'C16.fileread', f['pq'], role, fwhere(f), 'interpreted against a model file for byte-wise, whole and over-long reads', bad or '')
+
+
+def check_raw_scalars(ctx, prog):
+    """C16.rawscalar: a multi-byte scalar crosses the stream only through the byte-order aware scalar operators.  In every member
+    of the stream classes other than those operators (string and array readers / writers, helpers), a raw read()/write() whose
+    buffer is the address of a single multi-byte scalar (`read(&n, sizeof(n))` for a length prefix) bypasses the byte order
+    unless the same function swaps that variable under the byte-order test; the sibling classes read the prefix with `>> n`."""
+    n = 0
+    for f in prog.functions:
+        if f.get('clsp') not in STREAM_CLASSES or not f.get('body'):
+            continue
+        # the scalar operators themselves are decided by C16.scalar.*
+        if f['n'] in ('operator<<', 'operator>>', 'read', 'write') and len(f['params']) == 1:
+            pt = T(f, f['params'][0]['t'])
+            et = T(f, pt.get('to')) if pt.get('ref') else pt
+            if (et.get('int') or et.get('flt')) and not et.get('ptr'):
+                continue
+        if f['n'] in ('read', 'write') and len(f['params']) == 2:
+            continue                    # the raw primitives
+        for e in fn_exprs(f):
+            if not is_raw_transfer(e):
+                continue
+            a0 = strip(e['a'][0])
+            while a0.get('k') in ('cast', 'paren'):
+                a0 = strip(a0['e'])
+            if not (a0.get('k') == 'un' and a0.get('op') == '&'):
+                continue
+            tgt = strip_lv(a0['e'])
+            tt = T(f, tgt.get('dt') or tgt.get('t'))
+            if tgt.get('k') not in ('var', 'mem') or not (tt.get('int') or tt.get('flt')) or tt.get('ptr') or (tt.get('sz') or 1) <= 1:
+                continue
+            n += 1
+            ctx.analysed(f)
+            swapped = any(w.get('k') == 'call' and w.get('pq') in ('asl::swapBytes', 'asl::bytesSwapped') and any(x.get('k') == tgt.get('k') and (x.get('id') == tgt.get('id') if tgt.get('k') == 'var' else x.get('f') == tgt.get('f')) for a in w.get('a', []) for x in walk_expr(a)) for w in fn_exprs(f))
+            role = '%s%s:`%s` of a %d-byte scalar' % (f['n'], f['sig'].split('<')[0], pe(e)[:40], tt.get('sz'))
+            ctx.check(swapped, 'C16.rawscalar', f['pq'], role, fwhere(f, e.get('l')), 'the scalar is byte-swapped in the same function',
+                      '%s transfers the %d-byte scalar `%s` with a raw %s and never swaps it: with the stream in the non-native byte order the value (a length prefix) is read as its byte-reversed self - a string of length 5 becomes one of length 0x05000000 and every later value is misaligned' % (f['q'].split('(')[0], tt.get('sz'), pe(tgt), (e.get('pq') or '').split('::')[-1]))
+    return n
+
+
+def interp_array_writer(prog, f, other_val):
+    """-> ('ok' | 'bad', text) | None.  operator<<(const Array<T>&) interpreted (scansim) with the argument an array of 70 distinct
+    tokens, the scalar operator, the raw write and the swap helpers replaced by recorders, once per byte order."""
+    import scansim
+    if any('EnumWrapper_' in (T(f, v['t']).get('s') or '') for s_ in ir.walk_stmts(f['body']) if s_.get('k') == 'decl' for v in s_['vars']):
+        return None                     # the foreach macro: its expansion is outside the interpreted fragment (decided by shape above)
+    pt = T(f, T(f, f['params'][0]['t']).get('to'))
+    m = __import__('re').match(r'asl::Array<(.*)>$', pt.get('rec') or '')
+    if not m:
+        return None
+    esz = None
+    for t_ in f.get('_types', {}).values() if isinstance(f.get('_types'), dict) else []:
+        if isinstance(t_, dict) and t_.get('s') == m.group(1) and t_.get('sz'):
+            esz = t_['sz']
+    if not esz or esz <= 1:
+        return None
+    N = 70
+    SW = 1 << 10            # token of element i is i + 1, its byte-swapped image i + 1 + SW (both fit the narrowest multi-byte element)
+    endian_vals = endian_values(prog)
+    for nm, val in sorted(endian_vals.items()):
+        out = []
+
+        def scalar(run, e, args, out=out, val=val):
+            v = args[0]
+            if isinstance(v, tuple) and v[0] == 'P':
+                v = run.load(v, e.get('l'))
+            out.append(v + (SW if val == other_val else 0) if isinstance(v, int) else v)
+            return ('THIS',)
+
+        def write(run, e, args, out=out):
+            p_, n_ = args[0], args[1]
+            if not (isinstance(p_, tuple) and p_[0] == 'P' and isinstance(n_, int)) or n_ % esz:
+                raise scansim.Unsupported('raw write arguments')
+            for j in range(n_ // esz):
+                out.append(run.load(('P', p_[1], p_[2] + j), e.get('l')))
+            return n_
+        pid = f['params'][0]['id']
+        bufs = {('O', pid): [1 + i for i in range(N)]}
+        swap1 = lambda run, e, args: (args[0] + SW) if isinstance(args[0], int) else args[0]
+        r = scansim.Run(prog, f, bufs, mems={'_endian': val}, methods={'operator<<': scalar, 'write': write, 'endian': lambda run, e, a, val=val: val, '*': 'interp'},
+                        externs={'asl::bytesSwapped': swap1, 'bytesSwapped': swap1}, objects=True)
+        r.objlen[pid] = N
+        try:
+            r.run()
+        except scansim.OOB as o:
+            return 'bad', 'writing an array of %d elements with byte order %s reads or writes outside a buffer: %s' % (N, nm, o)
+        except (scansim.Unsupported, TypeError, KeyError, IndexError, AttributeError):
+            return None
+        want = [1 + i + (SW if val == other_val else 0) for i in range(N)]
+        if out != want:
+            k_ = next((i for i, (a_, b_) in enumerate(zip(out, want)) if a_ != b_), min(len(out), len(want)))
+            got = out[k_] if k_ < len(out) else None
+            desc = 'nothing' if got is None else ('element %d%s' % ((got % SW) - 1, ' byte-swapped' if got >= SW else ' unswapped')) if isinstance(got, int) else 'uninitialised data'
+            return 'bad', 'with byte order %s an array of %d elements is written as %d item(s) and item %d is %s (expected element %d%s): the bytes on the wire are not the concatenation of the elements' % (
+                nm, N, len(out), k_, desc, k_, ' byte-swapped' if val == other_val else '')
+    return 'ok', 'interpreted on an array of %d distinct elements for every byte order: each element once, in order, swapped iff the order is the non-native one' % N
